@@ -143,6 +143,7 @@ type jwsCtx struct {
 	scheme string
 	st     time.Time
 	other  *identity // another identity (other key)
+	twin   *identity // another identity whose key has the same type and size
 }
 
 func setMember(b *jwsBuild, key, raw string) {
@@ -563,6 +564,18 @@ func jwsMutations() []jwsMut {
 		b.X5cRaw = append([][]byte{c.other.chain[0].Raw}, ders(c.id.chain[1:])...)
 	})
 	add("x5c:other-identity-chain", func(b *jwsBuild, c *jwsCtx) { b.X5cRaw = ders(c.other.chain) })
+	// a key of the same type and size that signed nothing / that signed everything: the envelope names one chain only (the
+	// unprotected one), whatever else the signed header carries
+	add("x5c:chain-of-a-twin-key-that-signed-nothing", func(b *jwsBuild, c *jwsCtx) { b.X5cRaw = ders(c.twin.chain) })
+	add("sig:by-the-twin-key", func(b *jwsBuild, c *jwsCtx) { b.SignKey = getKey(c.twin.keyID) })
+	add("ext:x5c-member-in-protected-of-the-signing-twin", func(b *jwsBuild, c *jwsCtx) {
+		var parts []string
+		for _, d := range ders(c.twin.chain) {
+			parts = append(parts, jsonStr(base64.StdEncoding.EncodeToString(d)))
+		}
+		setMember(b, "x5c", "["+strings.Join(parts, ",")+"]")
+		b.SignKey = getKey(c.twin.keyID)
+	})
 	// a correctly signed envelope whose chain has one defect of the C03 catalogue (or one of its harmless oddities), at the leaf
 	// and at the issuer: "a certificate chain that passes code-signing chain validation" is a clause of what is returned
 	for _, dm := range defectiveChainMutations() {
@@ -814,7 +827,21 @@ type jwsJob struct {
 }
 
 func runJwsJob(r *Runner, j jwsJob, idx int) {
-	submitJwsBytes(r, jwsJobBytes(j), j.label, fmt.Sprintf("%s-%d", j.label, idx), nil)
+	// declared conformant: the independent encoder's own envelopes, and those whose only deviations are payloads that are JSON
+	// objects all the same (the payload is opaque to the envelope specification)
+	var tags []string
+	conf := true
+	for _, m := range j.muts {
+		if !(strings.HasPrefix(m.name, "payload:claim-names-") || m.name == "payload:bigint" || m.name == "payload:empty-object" || m.name == "payload:dup-keys" || m.name == "payload:whitespace-object") {
+			conf = false
+		}
+	}
+	if conf && !strings.HasPrefix(j.keyID, "rsa1024") && !strings.HasPrefix(j.keyID, "rsa20") && !strings.HasPrefix(j.keyID, "rsa25") && !strings.HasPrefix(j.keyID, "rsa30") &&
+		!strings.HasPrefix(j.keyID, "rsa32") && !strings.HasPrefix(j.keyID, "rsa408") && !strings.HasPrefix(j.keyID, "rsa41") && !strings.HasPrefix(j.keyID, "rsa51") &&
+		!strings.HasPrefix(j.keyID, "ec224") && !strings.HasPrefix(j.keyID, "ed") {
+		tags = []string{"declared-conformant"}
+	}
+	submitJwsBytes(r, jwsJobBytes(j), j.label, fmt.Sprintf("%s-%d", j.label, idx), tags)
 }
 
 // jwsJobBytes: the envelope bytes a job describes
@@ -832,7 +859,11 @@ func jwsJobBytes(j jwsJob) []byte {
 			otherKey = "rsa2048-1" // the odd sizes have one committed key each
 		}
 	}
-	ctx := &jwsCtx{id: id, scheme: j.scheme, st: baseTime().Add(-time.Minute), other: getIdentity(otherKey, 2)}
+	twinKey := otherKey
+	if strings.HasPrefix(j.keyID, "ec") && strings.HasSuffix(j.keyID, "-0") {
+		twinKey = strings.TrimSuffix(j.keyID, "-0") + "-1"
+	}
+	ctx := &jwsCtx{id: id, scheme: j.scheme, st: baseTime().Add(-time.Minute), other: getIdentity(otherKey, 2), twin: getIdentity(twinKey, 2)}
 	var exp *time.Time
 	if j.expiry {
 		t := ctx.st.Add(24 * time.Hour)
@@ -893,7 +924,7 @@ func submitJwsBytes(r *Runner, envBytes []byte, class, id string, tags []string)
 	if certs != nil {
 		chain = absChainWith(certs, dersI)
 	}
-	c.In = map[string]any{"env": env, "chain": chain, "rawEmpty": len(envBytes) == 0}
+	c.In = map[string]any{"env": env, "chain": chain, "rawEmpty": len(envBytes) == 0, "declaredConformant": hasTag(tags, "declared-conformant")}
 	// an extended attribute whose JSON number float64 cannot hold exactly (recorded finding F3b)
 	if pm, ok := env["prot"].(map[string]any)["members"].([]any); ok {
 		for _, m := range pm {
@@ -1159,4 +1190,13 @@ func defectiveIdentity(mut string, pos, n int) ([]*x509.Certificate, *Key) {
 	}
 	defIDs[k], defIDKey[k] = chain, iss[0].Key
 	return chain, iss[0].Key
+}
+
+func hasTag(tags []string, t string) bool {
+	for _, x := range tags {
+		if x == t {
+			return true
+		}
+	}
+	return false
 }
